@@ -21,6 +21,7 @@ CONSTANTS
     NV,            \* number of valuations
     PrevOf(_, _),  \* PrevOf(sig, k): previous (register) value of sig in valuation k
     FsmPrev(_, _), \* FsmPrev(f, k): previous state (a state id) of FSM f in valuation k
+    RegOf(_),      \* RegOf(e): id of the signal whose *current* value the expression e reads (0: e reads inputs only)
     NFsm,          \* number of FSMs a module may contain (the second may be nested in a State of the first)
     Conds, Tests, Rhs,   \* subsets of Exprs used as If conditions / Switch tests / right-hand sides
     PatSets(_),    \* PatSets(test): set of pattern sequences usable in Case for that test
@@ -145,8 +146,18 @@ RECURSIVE TSigs(_)
 TSigs(t) == CASE t.k = "sig" -> {t.i}
               [] t.k \in {"slice", "part", "rei"} -> TSigs(t.x)
               [] t.k \in {"cat", "arr"} -> UNION {TSigs(t.xs[j]) : j \in 1..Len(t.xs)}
+(* names of the run-time offsets / indices used inside a target *)
+RECURSIVE TOffs(_)
+TOffs(t) == CASE t.k = "sig" -> {}
+              [] t.k = "part" -> {t.off} \cup TOffs(t.x)
+              [] t.k \in {"slice", "rei"} -> TOffs(t.x)
+              [] t.k = "arr" -> {t.idx} \cup UNION {TOffs(t.xs[j]) : j \in 1..Len(t.xs)}
+              [] t.k = "cat" -> UNION {TOffs(t.xs[j]) : j \in 1..Len(t.xs)}
 AssignTo(tg, r) ==
     /\ BodyOpen /\ NAssign < MaxAssign
+    \* an offset that reads a register is the register's value BEFORE the edge, whatever was assigned to it earlier in
+    \* the program; generated only in the register's own synchronous domain, after the register has been assigned
+    /\ \A e \in TOffs(tg.t) : RegOf(e) # 0 => tg.d = "sync" /\ dom[RegOf(e)] = "sync"
     /\ \A s \in TSigs(tg.t) : dom[s] \in {"none", tg.d}        \* one driving domain per signal
     /\ Step([op |-> "Assign", d |-> tg.d, t |-> tg.t, r |-> r])
     /\ dom' = [s \in Sigs |-> IF s \in TSigs(tg.t) THEN tg.d ELSE dom[s]]
